@@ -24,6 +24,16 @@ type C07Case struct {
 	CppR   []ref.Op `json:"cpp_r"`
 	PyW    []ref.Op `json:"py_w"`
 	PyR    []ref.Op `json:"py_r"`
+	// further call sequences on the same shape (running a sequence is cheap next to generating and
+	// compiling the shape's code)
+	MoreCppW [][]ref.Op `json:"more_cpp_w,omitempty"`
+	MoreCppR [][]ref.Op `json:"more_cpp_r,omitempty"`
+	MorePyW  [][]ref.Op `json:"more_py_w,omitempty"`
+	MorePyR  [][]ref.Op `json:"more_py_r,omitempty"`
+}
+
+func seqs(first []ref.Op, more [][]ref.Op) [][]ref.Op {
+	return append([][]ref.Op{first}, more...)
 }
 
 const c07Rule = "protocol shapes (1-8 steps, any stream/non-stream pattern; 1 in 8 cases a hostile size of 127-130 or 255-257 steps) x four generated call sequences (C++ writer: write/batch-write/end/close; C++ reader: read/batch-read(capacity)/close against a scripted source; Python writer: write/write-iterable/close; Python reader: read/iterate n/close), 70% of the calls drawn along the legal path, 30% arbitrary, each sequence ending at its first rejected call. oracle: reference step automaton per API (harness/ref/steps.go): every call the automaton accepts must succeed and deliver exactly the scripted data, the first call it rejects must raise; calls in corners the documents leave open are not judged. The generated abstract base classes are driven through stub implementations (C++ compiled, Python executed). non-trivial = the sequence contains a rejected call after at least one accepted stream call, or walks a shape with at least 2 streams to completion; distinct = (shape, sequences)"
@@ -60,6 +70,7 @@ func genOps(t *rapid.T, shape []bool, counts []int, api string) []ref.Op {
 	}
 	cur := 0      // our own notion of the current step (advanced on accepted calls)
 	open := false // python reader: iterable handed out
+	abandoned := false // python reader: the iterable was closed by the consumer before its end
 	limit := 3*n + 12
 	for len(ops) < limit {
 		legal := rapid.IntRange(0, 99).Draw(t, "legal") < 72
@@ -130,7 +141,18 @@ func genOps(t *rapid.T, shape []bool, counts []int, api string) []ref.Op {
 				op.N = rapid.IntRange(1, 5).Draw(t, "cap")
 			}
 		case "pyr":
-			if open && legal {
+			if abandoned {
+				// the iterable was dropped before it was exhausted: the stream is still open,
+				// whatever comes next (the following step, close) is out of order
+				nxt := cur + 1
+				if nxt >= n {
+					nxt = n - 1
+				}
+				op = ref.Op{Kind: rapid.SampledFrom([]string{"R", "R", "C"}).Draw(t, "afterAbandon"), Step: nxt}
+			} else if open && legal && rapid.IntRange(0, 5).Draw(t, "abandon") == 0 {
+				op = ref.Op{Kind: "X", Step: cur}
+				abandoned = true
+			} else if open && legal {
 				op = ref.Op{Kind: "I", Step: cur, N: rapid.SampledFrom([]int{-1, -1, 0, 1, 2, 5}).Draw(t, "pull")}
 			} else {
 				kinds := []string{"R"}
@@ -210,6 +232,14 @@ func genC07(t *rapid.T) C07Case {
 	c.CppR = genOps(t, c.Shape, c.Counts, "cppr")
 	c.PyW = genOps(t, c.Shape, c.Counts, "pyw")
 	c.PyR = genOps(t, c.Shape, c.Counts, "pyr")
+	if len(c.Shape) <= 16 {
+		for k := 0; k < 5; k++ {
+			c.MoreCppW = append(c.MoreCppW, genOps(t, c.Shape, c.Counts, "cppw"))
+			c.MoreCppR = append(c.MoreCppR, genOps(t, c.Shape, c.Counts, "cppr"))
+			c.MorePyW = append(c.MorePyW, genOps(t, c.Shape, c.Counts, "pyw"))
+			c.MorePyR = append(c.MorePyR, genOps(t, c.Shape, c.Counts, "pyr"))
+		}
+	}
 	return c
 }
 
@@ -382,9 +412,13 @@ func checkC07(c C07Case) *Fail {
 		return failf("c07-gen", "generate failed: %v", err)
 	}
 	// Python
-	pyJobs := []sut.Job{
-		{Op: "steps", Proto: "Proto0", Side: "writer", Counts: c.Counts, Ops: toSutOps(c.PyW)},
-		{Op: "steps", Proto: "Proto0", Side: "reader", Counts: c.Counts, Ops: toSutOps(c.PyR)},
+	var pyJobs []sut.Job
+	pyW, pyR := seqs(c.PyW, c.MorePyW), seqs(c.PyR, c.MorePyR)
+	for _, ops := range pyW {
+		pyJobs = append(pyJobs, sut.Job{Op: "steps", Proto: "Proto0", Side: "writer", Counts: c.Counts, Ops: toSutOps(ops)})
+	}
+	for _, ops := range pyR {
+		pyJobs = append(pyJobs, sut.Job{Op: "steps", Proto: "Proto0", Side: "reader", Counts: c.Counts, Ops: toSutOps(ops)})
 	}
 	pyRes, err := b.RunPy(pyJobs)
 	if err != nil {
@@ -395,16 +429,21 @@ func checkC07(c C07Case) *Fail {
 			return failf("rt-harness", "python driver: %v", err)
 		}
 	} else {
-		var rw, rr []stepRes
-		json.Unmarshal(pyRes[0].Extra, &rw)
-		json.Unmarshal(pyRes[1].Extra, &rr)
-		pw := &ref.PyWriter{Shape: c.Shape}
-		if f := judge(c, "Python writer", c.PyW, rw, func(o ref.Op) ref.Outcome { return ref.Outcome{V: pw.Do(o)} }, false); f != nil {
-			return f
+		for k, ops := range pyW {
+			var rw []stepRes
+			json.Unmarshal(pyRes[k].Extra, &rw)
+			pw := &ref.PyWriter{Shape: c.Shape}
+			if f := judge(c, "Python writer", ops, rw, func(o ref.Op) ref.Outcome { return ref.Outcome{V: pw.Do(o)} }, false); f != nil {
+				return f
+			}
 		}
-		pr := &ref.PyReader{Shape: c.Shape, Counts: c.Counts}
-		if f := judge(c, "Python reader", c.PyR, rr, pr.Do, true); f != nil {
-			return f
+		for k, ops := range pyR {
+			var rr []stepRes
+			json.Unmarshal(pyRes[len(pyW)+k].Extra, &rr)
+			pr := &ref.PyReader{Shape: c.Shape, Counts: c.Counts}
+			if f := judge(c, "Python reader", ops, rr, pr.Do, true); f != nil {
+				return f
+			}
 		}
 	}
 	// C++
@@ -416,10 +455,15 @@ func checkC07(c C07Case) *Fail {
 		}
 		return failf("rt-harness", "C++ build: %v", err)
 	}
-	cppRes, err := b.RunCpp([]sut.Job{
-		{Op: "steps", Proto: "Proto0", Side: "writer", Counts: c.Counts, Ops: toSutOps(c.CppW)},
-		{Op: "steps", Proto: "Proto0", Side: "reader", Counts: c.Counts, Ops: toSutOps(c.CppR)},
-	})
+	cppW, cppR := seqs(c.CppW, c.MoreCppW), seqs(c.CppR, c.MoreCppR)
+	var cppJobs []sut.Job
+	for _, ops := range cppW {
+		cppJobs = append(cppJobs, sut.Job{Op: "steps", Proto: "Proto0", Side: "writer", Counts: c.Counts, Ops: toSutOps(ops)})
+	}
+	for _, ops := range cppR {
+		cppJobs = append(cppJobs, sut.Job{Op: "steps", Proto: "Proto0", Side: "reader", Counts: c.Counts, Ops: toSutOps(ops)})
+	}
+	cppRes, err := b.RunCpp(cppJobs)
 	if err != nil {
 		return failf("rt-harness", "C++ driver: %v", err)
 	}
@@ -428,13 +472,17 @@ func checkC07(c C07Case) *Fail {
 			return failf("c07", "C++ driver failed on job %d: %s", i, core.Trunc(r.Error, 800))
 		}
 	}
-	cw := &ref.CppWriter{Shape: c.Shape}
-	if f := judge(c, "C++ writer", c.CppW, parseCppSteps(cppRes[0].Error), func(o ref.Op) ref.Outcome { return ref.Outcome{V: cw.Do(o)} }, false); f != nil {
-		return f
+	for k, ops := range cppW {
+		cw := &ref.CppWriter{Shape: c.Shape}
+		if f := judge(c, "C++ writer", ops, parseCppSteps(cppRes[k].Error), func(o ref.Op) ref.Outcome { return ref.Outcome{V: cw.Do(o)} }, false); f != nil {
+			return f
+		}
 	}
-	cr := &ref.CppReader{Shape: c.Shape, Counts: c.Counts}
-	if f := judge(c, "C++ reader", c.CppR, parseCppSteps(cppRes[1].Error), cr.Do, true); f != nil {
-		return f
+	for k, ops := range cppR {
+		cr := &ref.CppReader{Shape: c.Shape, Counts: c.Counts}
+		if f := judge(c, "C++ reader", ops, parseCppSteps(cppRes[len(cppW)+k].Error), cr.Do, true); f != nil {
+			return f
+		}
 	}
 	return nil
 }
